@@ -3,12 +3,27 @@
 Tie: correspondence (C).  Panel tables (1-8 individuals, 1-5 rows each, arbitrary id values,
 individuals in random order, contiguous or deliberately interleaved) are turned into real
 `Database` objects; `Database.panel`, `individualMap`, `get_sample_size`, `count_number_of_groups`,
-`generate_flat_panel_dataframe`, and `BIOGEME.calculate_likelihood` / `simulate` on formulas
-`log(PanelLikelihoodTrajectory(.))` and `log(MonteCarlo(PanelLikelihoodTrajectory(.)))` with
-deterministic user-defined generators (the draw value encodes (individual, r, variable)) are
-driven.  Outputs are compared with the Lean model (`Panel.panelOk/panelMap/tableValues/
-panelValuesMC`, `checkPanelTrajectory`) and with an oracle written from the property statement
-(independent products / means in Python from the *real* per-row values).
+`generate_flat_panel_dataframe`, and `BIOGEME.calculate_likelihood` / `calculate_likelihood_and_derivatives`
+(scaled and not, with Hessian and BHHH) / `calculate_init_likelihood` / `simulate` / `estimate` (results:
+sample size, number of observations) on formulas `log(PanelLikelihoodTrajectory(.))` and
+`log(MonteCarlo(PanelLikelihoodTrajectory(.)))` with deterministic user-defined generators (the draw
+value encodes (individual, r, variable)) are driven.
+
+Histories: (a) one BIOGEME object used for simulate / likelihood / derivatives / estimate (bootstrap)
+in a row; (b) the table of the database changed after `panel()` - rows appended (for the last
+individual, for any individual, for a new one), dropped, relabelled, reordered, `Database.remove`, the
+table replaced - each change followed by an evaluation through `Expression.get_value_c` (per
+individual / aggregated), `get_value_and_derivatives`, or a new BIOGEME object (likelihood, simulate):
+the values and the map must be those of the table as it is at that moment.
+
+Placement: random formulas over {variables, parameters, draws, exp, -, +, *, PanelLikelihoodTrajectory,
+MonteCarlo} given to `BIOGEME(...)` (single formula and dict), to `Expression.audit` and (formulas that
+must be refused only) to `get_value_c`: a variable outside the trajectory operator, or a Monte-Carlo
+integral that does not enclose it (row-wise integral, no shared draw), must be refused.
+
+Outputs are compared with the Lean model (`Panel.panelOk/panelMap/tableValues/panelValuesMC/
+DbState.history/scaledBy`, `checkPanelTrajectory/checkDraws/auditErrors/initAccepts`) and with an oracle
+written from the property statement (independent products / means in Python).
 """
 
 from __future__ import annotations
@@ -25,12 +40,17 @@ READY = True
 MANIFEST = dict(
     text='Proof (Lean 4): the test of Database.panel (number of runs of the id column = number of runs of the sorted column) holds IFF every id occupies one run '
     '(C09.contiguous_iff, contiguous_index_form); every entry [first,last] of the map of the sorted column holds exactly the rows of its id and every row lies in exactly one entry '
-    '(map_block, map_bounds, map_partition, map_ids); sample size = number of distinct ids (sample_size); the trajectory operator = product over the visited rows, = exactly the rows '
+    '(map_block, map_bounds, map_partition, map_ids); sample size = number of distinct ids (sample_size), and the scaled quantities are divided by it, not by the number of rows (scaled_by_individuals); '
+    'the trajectory operator = product over the visited rows, = exactly the rows '
     'of the id, invariant under reordering (traj_product, traj_rows, traj_perm); at table level the list (individual, value) is the same for every permutation of the rows '
-    '(table_values, table_perm_invariant); inside Monte-Carlo the draw vector is that of (individual, r) for all rows (shared_draw, draws_of_individual_only, mc_perm); '
-    'check_panel_trajectory = variables outside every trajectory operator (audit_panel). Tie: real Database/BIOGEME objects on generated panel tables, deterministic draw generators.',
+    '(table_values, table_perm_invariant); the map is rebuilt before each evaluation, so after any change of the table the values are those of the current table and nothing of the earlier '
+    'tables or maps survives (evaluate_current_table, eval_after_edit, history_values, history_free); inside Monte-Carlo the draw vector is that of (individual, r) for all rows '
+    '(shared_draw, draws_of_individual_only, mc_perm); '
+    'check_panel_trajectory = variables outside every trajectory operator (audit_panel); Expression.audit lists no error on panel data iff every MonteCarlo encloses a trajectory operator, '
+    'a draw and no other integral (audit_mc), hence an accepted formula has all variables below, and all integrals around, a trajectory operator (accepted_formula). '
+    'Tie: real Database/BIOGEME/Expression objects on generated panel tables, histories of table changes and evaluations, deterministic draw generators.',
     design='DESIGN.md §5 C09',
-    technique='Lean 4 theorems (core + Mathlib list/finset lemmas) over an executable model of the contiguity test, the individual map and the trajectory / Monte-Carlo operators + differential correspondence',
+    technique='Lean 4 theorems (core + Mathlib list/finset lemmas) over an executable model of the contiguity test, the individual map, its rebuilding before each evaluation, the trajectory / Monte-Carlo operators and the placement rules + differential correspondence',
     note='The C++ engine operators are modelled, not verified. pandas sort_values/unique/shift are trusted primitives (their outputs are checked on every case).',
 )
 
@@ -42,12 +62,17 @@ TRUSTED = [
 ASSUMPTIONS = ['per-observation values inside the trajectory are positive (the engine computes exp of the sum of logs)', 'ids are mapped to integers preserving order and equality']
 RULE = (
     'panel table: 1-8 individuals x 1-5 rows, ids from {negative, large, non-consecutive, half-integers}, individuals in random order, contiguous or interleaved; '
-    'formulas traj / Monte-Carlo(traj) with 1-2 user draw variables, R in {1,2,3,5}; sequences simulate / likelihood / estimate(bootstrap) / simulate on one object; non-trivial = >= 2 individuals with unequal block sizes'
+    'formulas traj / Monte-Carlo(traj) with 1-2 user draw variables, R in {1,2,3,5}; entry points likelihood (scaled or not), likelihood and derivatives (scaled or not, hessian, BHHH), '
+    'initial likelihood, simulate; sequences simulate / likelihood / estimate(bootstrap) / simulate on one object; histories of 1-3 table changes '
+    '(append for the last / any / a new individual, drop rows / an individual, relabel a row, reorder, Database.remove, replace) each followed by an evaluation through '
+    'get_value_c / get_value_c(aggregation) / get_value_and_derivatives / a new BIOGEME object; placement: random formulas of depth <= 5 with trajectory and Monte-Carlo operators, '
+    'single formula / dict / Expression.audit / get_value_c; non-trivial = >= 2 individuals with unequal block sizes'
 )
 
 WHERE_DICT = 'BIOGEME.__init__ with a dict of formulas on panel data: variables outside PanelLikelihoodTrajectory'
 WHERE_BOOT_L = 'calculate_likelihood right after estimate(run_bootstrap=True) on the same object (engine keeps the last bootstrap sample)'
 WHERE_SEQ = 'sequence of simulate / calculate_likelihood / estimate on one panel BIOGEME object'
+WHERE_DERIV = 'BIOGEME.calculate_likelihood_and_derivatives on panel data'
 MATCHERS = {
     'dict_path': lambda case: isinstance(case, dict) and case.get('dict_path') is True,
     'after_bootstrap': lambda case: isinstance(case, dict) and case.get('step') == 'likelihood-right-after-bootstrap',
@@ -247,6 +272,16 @@ def run_values(case, table):
             'Ls': float(B.calculate_likelihood(x, scaled=True)),
             'sample_size': int(d.get_sample_size()),
         }
+        # the other public entry points that return the log likelihood (and quantities derived from it)
+        for sc in (False, True):
+            r = B.calculate_likelihood_and_derivatives(x, scaled=sc, hessian=True, bhhh=True)
+            out['Ds' if sc else 'D'] = {
+                'f': float(r.function), 'g': [float(v) for v in np.asarray(r.gradient).ravel()],
+                'h': [float(v) for v in np.asarray(r.hessian).ravel()], 'bhhh': [float(v) for v in np.asarray(r.bhhh).ravel()],
+            }
+        out['Dplain'] = float(B.calculate_likelihood_and_derivatives(x, scaled=True).function)
+        out['L0'] = float(B.calculate_init_likelihood())
+        out['L_again'] = float(B.calculate_likelihood(x, scaled=False))
         sim = B.simulate({'b': case['b']})
         out['sim_ids'] = [float(i) for i in sim.index]
         out['sim'] = [float(v) for v in sim['log_like'].values]
@@ -270,12 +305,11 @@ def rank_map(ids):
     return {v: i - len(vals) // 2 for i, v in enumerate(vals)}  # order- and equality-preserving integers (negative ones too)
 
 
-def oracle_map(table, real, res, desc):
+def oracle_map(table, real, res, desc, flat=True, where='Database.panel / build_panel_map'):
     """every row belongs to exactly one individual, each individual's rows form one block, sample size = #individuals"""
     ids = [float(r[0]) for r in table['rows']]
     N = len(ids)
     rows_sorted = real['sorted_rows']
-    where = 'Database.panel / build_panel_map'
     if sorted(map(tuple, rows_sorted)) != sorted((float(r[0]), float(r[1]), float(r[2])) for r in table['rows']):
         res.violate('the sorted table holds exactly the rows of the table', desc, rows_sorted, table['rows'], where=where)
     if real['data_index'] != list(range(N)):
@@ -300,6 +334,8 @@ def oracle_map(table, real, res, desc):
         res.violate('sample size = number of individuals', desc, real['sample_size'], len(set(ids)), where='Database.get_sample_size')
     if real['n_obs'] != N:
         res.violate('number of observations = number of rows', desc, real['n_obs'], N, where='Database.get_number_of_observations')
+    if not flat:
+        return
     # flat frame: one line per individual, k-th row of the individual in columns k_P, k_X
     if sorted(real['flat_index']) != sorted(set(ids)):
         res.violate('flat panel frame has one line per individual', desc, real['flat_index'], sorted(set(ids)), where='generate_flat_panel_dataframe')
@@ -340,14 +376,8 @@ def oracle_values(case, table, real, res, desc):
         for a in order:
             exp_vals.append(math.log(math.prod(v for v, r in zip(pr, rows) if r[0] == a)))
     else:
-        R, K, b, q = case['R'], case['K'], case['b'], case['q']
-        for ind, a in enumerate(order):
-            acc = []
-            for r in range(R):
-                x0 = draw_value(ind, r, 0)
-                x1 = draw_value(ind, r, 1)
-                acc.append(math.prod(rw[1] * math.exp(b * rw[2] * x0) * ((1 + q * x1) if K >= 2 else 1.0) for rw in rows if rw[0] == a))
-            exp_vals.append(math.log(math.fsum(acc) / R))
+        R, K = case['R'], case['K']
+        exp_vals = expected_mc(case, rows, order, case['b'])
         # draw table dimensioned by individuals, every generator call asks for (individuals, R)
         bad = [c for c in real['gen_calls'] if c[1] != len(ids) or c[2] != R]
         if bad or not real['gen_calls']:
@@ -365,7 +395,51 @@ def oracle_values(case, table, real, res, desc):
         res.violate('scaled log likelihood = log likelihood / number of individuals', desc, real['Ls'], real['L'] / len(ids), where=where)
     if real['sample_size'] != len(ids):
         res.violate('sample size = number of individuals', desc, real['sample_size'], len(ids), where='Database.get_sample_size')
+    # secondary entry points: same function; scaled = divided by the number of individuals, for every returned quantity
+    where2 = WHERE_DERIV
+    if not core.close(real['D']['f'], tot, rel=1e-11, abs_=1e-11):
+        res.violate('calculate_likelihood_and_derivatives: log likelihood = sum over individuals of the per-individual values', desc, real['D']['f'], tot, where=where2)
+    for key in ('f', 'g', 'h', 'bhhh'):
+        un, sc = real['D'][key] if key != 'f' else [real['D']['f']], real['Ds'][key] if key != 'f' else [real['Ds']['f']]
+        want = [v / len(ids) for v in un]
+        if len(sc) != len(want) or not all(core.close(a, b, rel=1e-14, abs_=1e-300) for a, b in zip(sc, want)):
+            res.violate(
+                f'calculate_likelihood_and_derivatives(scaled=True): {FIELD[key]} = unscaled {FIELD[key]} / number of individuals', desc, sc,
+                {'unscaled': un, 'individuals': len(ids), 'rows': len(rows), 'expected': want}, where=where2)
+            break
+    if not core.close(real['Dplain'], real['L'] / len(ids), rel=1e-14):
+        res.violate('calculate_likelihood_and_derivatives(scaled=True) without derivatives: log likelihood / number of individuals', desc, real['Dplain'], real['L'] / len(ids), where=where2)
+    if case['formula'] == 'traj':
+        # d/db of sum_n log prod_t P exp(b X) = sum over all rows of X
+        gexp = math.fsum(r[2] for r in rows)
+        if len(real['D']['g']) != 1 or not core.close(real['D']['g'][0], gexp, rel=1e-9, abs_=1e-9):
+            res.violate('calculate_likelihood_and_derivatives: gradient of the log likelihood = sum over the individuals of the derivative of their value', desc, real['D']['g'], [gexp], where=where2)
+        l0 = math.fsum(math.log(r[1]) for r in rows)
+    else:
+        l0 = math.fsum(expected_mc(case, rows, order, 0.0))
+    if not core.close(real['L0'], l0, rel=1e-11, abs_=1e-11):
+        res.violate('calculate_init_likelihood = log likelihood at the initial value of the parameters', desc, real['L0'], l0, where='BIOGEME.calculate_init_likelihood on panel data')
+    if not core.close(real['L_again'], real['L'], rel=1e-13, abs_=1e-13):
+        res.violate('calculate_likelihood returns the same value after the other entry points were used', desc, real['L_again'], real['L'], where=where)
     return exp_vals
+
+
+FIELD = {'f': 'log likelihood', 'g': 'gradient', 'h': 'hessian', 'bhhh': 'BHHH matrix'}
+
+
+def expected_mc(case, rows, order, b):
+    """log of the mean over draws of the product over the rows of the individual, the draw vector being
+    that of (individual, r) for all its rows; `order` = ids in the order of the map (position = draw index)"""
+    R, K, q = case['R'], case['K'], case['q']
+    vals = []
+    for ind, a in enumerate(order):
+        acc = []
+        for r in range(R):
+            x0 = draw_value(ind, r, 0)
+            x1 = draw_value(ind, r, 1)
+            acc.append(math.prod(rw[1] * math.exp(b * rw[2] * x0) * ((1 + q * x1) if K >= 2 else 1.0) for rw in rows if rw[0] == a))
+        vals.append(math.log(math.fsum(acc) / R))
+    return vals
 
 
 # ----------------------------------------------------------------------------- one case
@@ -515,17 +589,24 @@ def run_sequence(case):
             out.append({'step': step, 'ids': [float(i) for i in s.index], 'log_like': [float(v) for v in s['log_like'].values], 'traj': [float(v) for v in s['traj'].values]})
 
         def like(step):
-            out.append({'step': step, 'L': float(B.calculate_likelihood(x, scaled=False)), 'Ls': float(B.calculate_likelihood(x, scaled=True))})
+            st = {'step': step, 'L': float(B.calculate_likelihood(x, scaled=False)), 'Ls': float(B.calculate_likelihood(x, scaled=True))}
+            for sc in (False, True):
+                r = B.calculate_likelihood_and_derivatives(x, scaled=sc, hessian=False, bhhh=True)
+                st['Ds' if sc else 'D'] = [float(r.function)] + [float(v) for v in np.asarray(r.gradient).ravel()] + [float(v) for v in np.asarray(r.bhhh).ravel()]
+            out.append(st)
+
+        def results(step, r):
+            out.append({'step': step, 'sampleSize': int(r.data.sampleSize), 'numberOfObservations': int(r.data.numberOfObservations)})
 
         sim('simulate-first')
         like('likelihood-after-simulate')
         sim('simulate-after-likelihood')
-        B.estimate(run_bootstrap=True)
+        results('results-of-estimate-with-bootstrap', B.estimate(run_bootstrap=True))
         like('likelihood-right-after-bootstrap')
         sim('simulate-after-bootstrap')
         like('likelihood-after-bootstrap-and-simulate')
         sim('simulate-again')
-        B.estimate()
+        results('results-of-estimate', B.estimate())
         sim('simulate-after-estimate')
         like('likelihood-after-estimate')
     return out
@@ -556,6 +637,19 @@ def check_sequence(ctx, res, case):
                 res.violate(f'log likelihood ({st["step"]}) = sum over individuals of the log of the product over their rows', desc, st['L'], exp_L, where=where)
             elif not core.close(st['Ls'], st['L'] / len(ids), rel=1e-15):
                 res.violate(f'scaled log likelihood ({st["step"]}) = log likelihood / number of individuals', desc, st['Ls'], st['L'] / len(ids), where=where)
+            elif not core.close(st['D'][0], exp_L, rel=1e-10, abs_=1e-10):
+                res.violate(f'calculate_likelihood_and_derivatives ({st["step"]}): log likelihood = sum over individuals of the log of the product over their rows', desc, st['D'][0], exp_L, where=where)
+            elif not all(core.close(a, b / len(ids), rel=1e-14, abs_=1e-300) for a, b in zip(st['Ds'], st['D'])):
+                res.violate(
+                    f'calculate_likelihood_and_derivatives(scaled=True) ({st["step"]}): [log likelihood, gradient, BHHH] = unscaled / number of individuals', desc, st['Ds'],
+                    {'unscaled': st['D'], 'individuals': len(ids), 'rows': len(rows)}, where=where if where == WHERE_BOOT_L else WHERE_DERIV)
+            continue
+        if 'sampleSize' in st:
+            if st['sampleSize'] != len(ids) or st['numberOfObservations'] != len(rows):
+                res.violate(
+                    f'estimation results ({st["step"]}): sample size = number of individuals, number of observations = number of rows', desc,
+                    {'sampleSize': st['sampleSize'], 'numberOfObservations': st['numberOfObservations']}, {'sampleSize': len(ids), 'numberOfObservations': len(rows)},
+                    where='estimation results on panel data: sampleSize / numberOfObservations')
             continue
         if sorted(st['ids']) != ids:
             res.violate(f'simulate ({st["step"]}) reports one line per individual', desc, st['ids'], ids, where=WHERE_SEQ)
@@ -566,6 +660,447 @@ def check_sequence(ctx, res, case):
                     f'simulate ({st["step"]}): the value reported for individual {a} = product over exactly the rows of that individual', desc,
                     {'traj': tv, 'log_like': lv}, {'traj': exp_traj[a], 'log_like': exp_ll[a]}, where=WHERE_SEQ)
                 break
+
+
+# ----------------------------------------------------------------------------- the table changes between evaluations
+
+WHERE_EDIT = 'evaluation on a panel database whose table was changed after panel() (map rebuilt before each evaluation)'
+WHERE_STALE_DRAWS = 'Expression.get_value_c / get_value_and_derivatives with MonteCarlo on a panel database whose number of individuals changed since the map was built'
+WHERE_UNSORTED = 'Expression.get_value_c / get_value_and_derivatives with PanelLikelihoodTrajectory on a panel database whose table is no longer sorted by individual'
+MATCHERS['stale_draws'] = lambda case: isinstance(case, dict) and case.get('stale_draws') is True
+MATCHERS['unsorted_table'] = lambda case: isinstance(case, dict) and case.get('unsorted_table') is True
+EXPR_ENTRIES = ('expr', 'expr_sum', 'expr_deriv')
+_POISON = {'hit': False}  # an exception came out of the C++ engine in this process: its later answers mean nothing
+
+
+def apply_edits(cur, edits):
+    """the table after the edits (oracle side: plain lists; rows are [id, P, X, key], key unique)"""
+    cur = [list(r) for r in cur]
+    for e in edits:
+        op = e['op']
+        if op == 'append':
+            cur += [list(r) for r in e['rows']]
+        elif op == 'drop':
+            cur = [r for r in cur if r[3] not in e['keys']]
+        elif op == 'relabel':
+            for r in cur:
+                if r[3] == e['key']:
+                    r[0] = e['id']
+        elif op == 'order':
+            by = {r[3]: r for r in cur}
+            cur = [by[k] for k in e['keys']]
+        elif op == 'remove':
+            cur = [r for r in cur if not r[2] > e['x_gt']]
+        elif op == 'replace':
+            cur = [list(r) for r in e['rows']]
+        else:
+            raise ValueError(op)
+    return cur
+
+
+def apply_edits_real(d, edits, allint):
+    """the same edits on the real Database: database.data is assigned / modified directly, Database.remove for 'remove'"""
+    import pandas as pd
+    from biogeme.expressions import Variable
+
+    def frame(rows):
+        return pd.DataFrame({
+            'ID': [int(r[0]) for r in rows] if allint else [float(r[0]) for r in rows],
+            'P': [float(r[1]) for r in rows], 'X': [float(r[2]) for r in rows], 'K': [float(r[3]) for r in rows]})
+
+    for e in edits:
+        op = e['op']
+        if op == 'append':
+            d.data = pd.concat([d.data, frame(e['rows'])], ignore_index=bool(e.get('ignore_index', True)))
+        elif op == 'drop':
+            d.data = d.data[~d.data['K'].isin([float(k) for k in e['keys']])]
+        elif op == 'relabel':
+            d.data.loc[d.data['K'] == float(e['key']), 'ID'] = int(e['id']) if allint else float(e['id'])
+        elif op == 'order':
+            keys = [float(k) for k in d.data['K']]
+            d.data = d.data.iloc[[keys.index(float(k)) for k in e['keys']]]
+        elif op == 'remove':
+            d.remove(Variable('X') > e['x_gt'])
+        elif op == 'replace':
+            d.data = frame(e['rows'])
+        else:
+            raise ValueError(op)
+
+
+def n_individuals(rows):
+    return len({r[0] for r in rows})
+
+
+def gen_edit_case(rng, allow_stale_draws):
+    """panel() on a table, one evaluation, then 1-3 times: edits of the table followed by one evaluation"""
+    t = gen_table(rng, contiguous=True)
+    ids0 = [r[0] for r in t['rows']]
+    allint = all(float(v).is_integer() for v in ids0)
+    cur = [[r[0], r[1], r[2], float(k)] for k, r in enumerate(t['rows'])]
+    nxt = [len(cur)]
+    formula = rng.choice(['traj', 'traj', 'mc'])
+
+    def new_id(existing):
+        while True:
+            v = rng.randint(-60, 60) if allint else rng.randint(-60, 60) / 2.0
+            if v not in existing:
+                return v
+
+    def new_rows(idv, k):
+        out = []
+        for _ in range(k):
+            out.append([idv, rng.choice([0.125, 0.25, 0.5, 0.75, 0.375, 0.9]), rng.randint(-8, 8) / 4.0, float(nxt[0])])
+            nxt[0] += 1
+        return out
+
+    case = {'first': [list(r) for r in cur], 'index': list(t['index']), 'allint': allint, 'formula': formula, 'b': rng.randint(-8, 8) / 16.0, 'q': rng.choice([0.0, 0.25, 0.5]),
+            'K': rng.choice([1, 2]), 'R': rng.choice([1, 2, 3]), 'entry0': rng.choice(EXPR_ENTRIES + ('biogeme',)), 'steps': [], 'isolated': False}
+    n_map = n_individuals(cur)  # number of individuals when the map of the database was last built
+    for _ in range(rng.choice([1, 1, 2, 3])):
+        edits = []
+        for _ in range(rng.choice([1, 1, 2])):
+            ids_now = sorted({r[0] for r in cur})
+            op = rng.choice(['append_last', 'append_any', 'append_new', 'drop', 'drop_individual', 'relabel', 'order', 'remove', 'replace'])
+            if op == 'append_last':      # new wave for the last individual: the table stays sorted
+                e = {'op': 'append', 'rows': new_rows(cur[-1][0], rng.choice([1, 2]))}
+            elif op == 'append_any':     # new rows for any individual: its rows are no longer consecutive in the table
+                e = {'op': 'append', 'rows': new_rows(rng.choice(ids_now), rng.choice([1, 2, 3])), 'ignore_index': rng.random() < 0.7}
+            elif op == 'append_new':
+                e = {'op': 'append', 'rows': new_rows(new_id(ids_now), rng.choice([1, 2]))}
+            elif op == 'drop':
+                if len(cur) < 2:
+                    continue
+                e = {'op': 'drop', 'keys': sorted(rng.sample([r[3] for r in cur], rng.randint(1, max(1, len(cur) // 3))))}
+            elif op == 'drop_individual':
+                if len(ids_now) < 2:
+                    continue
+                a = rng.choice(ids_now)
+                e = {'op': 'drop', 'keys': sorted(r[3] for r in cur if r[0] == a)}
+            elif op == 'relabel':        # one row changes hands (to another individual or to a new one)
+                e = {'op': 'relabel', 'key': rng.choice(cur)[3], 'id': rng.choice(ids_now + [new_id(ids_now)])}
+            elif op == 'order':
+                keys = [r[3] for r in cur]
+                rng.shuffle(keys)
+                e = {'op': 'order', 'keys': keys}
+            elif op == 'remove':
+                c = rng.randint(-6, 6) / 4.0 + 0.125
+                if all(r[2] > c for r in cur):
+                    continue
+                e = {'op': 'remove', 'x_gt': c}
+            else:
+                rows, fresh = [], []
+                for _ in range(rng.choice([1, 2, 3])):
+                    fresh.append(new_id(fresh))
+                    rows += new_rows(fresh[-1], rng.choice([1, 2, 3]))
+                e = {'op': 'replace', 'rows': rows}
+            edits.append(e)
+            cur = apply_edits(cur, [e])
+            if e['op'] == 'remove':
+                n_map = n_individuals(cur)  # Database.remove rebuilds the map itself (and sorts the table)
+                cur.sort(key=lambda r: r[0])
+        entry = rng.choice(EXPR_ENTRIES + EXPR_ENTRIES + ('biogeme',))
+        ids_now = [r[0] for r in cur]
+        if entry in EXPR_ENTRIES and any(x > y for x, y in zip(ids_now, ids_now[1:])) and rng.random() < 0.6:
+            entry = 'biogeme'  # (expression entry points on a table that is not sorted: listed finding F-C09-4; kept in the stream, less often)
+        if formula == 'mc' and entry in EXPR_ENTRIES and n_map != n_individuals(cur):
+            # known finding F-C09-3: the draws are generated (Expression.prepare) before the map is rebuilt
+            if allow_stale_draws:
+                case['isolated'] = True
+            else:
+                entry = 'biogeme'
+        case['steps'].append({'edits': edits, 'entry': entry})
+        n_map = n_individuals(cur)
+        cur.sort(key=lambda r: r[0])  # every evaluation leaves the table sorted by individual (stable)
+        if case['isolated']:
+            break  # the engine may raise here: nothing is evaluated after it
+    return case
+
+
+def edit_formula(case):
+    from biogeme.expressions import PanelLikelihoodTrajectory, MonteCarlo
+
+    if case['formula'] == 'traj':
+        return PanelLikelihoodTrajectory(integrand_expr(case, False))
+    return MonteCarlo(PanelLikelihoodTrajectory(integrand_expr(case, True)))
+
+
+def run_edit_case(case):
+    """drives the real code; one record per evaluation (record 0: before any edit)"""
+    return list(iter_edit_case(case))
+
+
+def iter_edit_case(case):
+    """generator: the next evaluation is driven only when the caller asks for it (a case is abandoned at its first failure)"""
+    import pandas as pd
+    import biogeme.biogeme as bio
+    import biogeme.database as db
+    from biogeme.expressions import log
+
+    calls = []
+    with core.scratch(TOML):
+        first = case['first']
+        allint = case['allint']
+        df = pd.DataFrame({
+            'ID': [int(r[0]) for r in first] if allint else [float(r[0]) for r in first],
+            'P': [float(r[1]) for r in first], 'X': [float(r[2]) for r in first], 'K': [float(r[3]) for r in first]}, index=list(case['index']))
+        d = db.Database('t', df)
+        if case['formula'] == 'mc':
+            d.set_random_number_generators(make_generators(calls))
+        d.panel('ID')
+        f = edit_formula(case)
+        betas = {'b': case['b']}
+        R = case['R']
+        for k, step in enumerate([{'edits': [], 'entry': case['entry0']}] + case['steps']):
+            rec = {'entry': step['entry']}
+            del calls[:]
+            try:
+                apply_edits_real(d, step['edits'], allint)
+                entry = step['entry']
+                rec['ids_before'] = [float(v) for v in d.data['ID']]  # the table as the evaluation finds it
+                if entry == 'expr':
+                    rec['values'] = [float(v) for v in f.get_value_c(database=d, betas=betas, number_of_draws=R, prepare_ids=True)]
+                elif entry == 'expr_sum':
+                    rec['sum'] = float(f.get_value_c(database=d, betas=betas, number_of_draws=R, aggregation=True, prepare_ids=True))
+                elif entry == 'expr_deriv':
+                    r = f.get_value_and_derivatives(betas=betas, database=d, number_of_draws=R, gradient=True, hessian=False, bhhh=False, aggregation=False, prepare_ids=True)
+                    rec['values'] = [float(v) for v in r.functions]
+                    rec['gradients'] = [[float(x) for x in np.asarray(g).ravel()] for g in r.gradients]
+                else:
+                    B = bio.BIOGEME(d, log(edit_formula(case)), number_of_draws=R, number_of_threads=1 + k % 3)
+                    rec['L'] = float(B.calculate_likelihood([case['b']], scaled=False))
+                    rec['Ls'] = float(B.calculate_likelihood([case['b']], scaled=True))
+                    sim = B.simulate(betas)
+                    rec['sim_ids'] = [float(i) for i in sim.index]
+                    rec['values'] = [float(v) for v in sim['log_like'].values]
+            except Exception as e:  # noqa: BLE001
+                rec['error'] = f'{type(e).__name__}: {str(e)[:200]}'
+                rec['error_kind'] = core.exc_kind(e)
+                yield rec
+                return
+            m = d.individualMap
+            rec['map'] = [[float(i), int(m.loc[i].iloc[0]), int(m.loc[i].iloc[1])] for i in m.index]
+            rec['sorted_rows'] = [[float(a), float(p), float(x)] for a, p, x in zip(d.data['ID'], d.data['P'], d.data['X'])]
+            rec['keys'] = [float(v) for v in d.data['K']]
+            rec['data_index'] = [int(i) for i in d.data.index]
+            rec['sample_size'] = int(d.get_sample_size())
+            rec['n_obs'] = int(d.get_number_of_observations())
+            rec['gen_calls'] = [list(c) for c in calls]
+            if case['formula'] == 'mc':
+                rec['draws_shape'] = list(np.asarray(d.theDraws).shape)
+            yield rec
+
+
+def edit_child(payload):
+    """(fresh interpreter) used for the cases on which the engine may raise: every record is written to the progress
+    file as soon as it exists; after an engine exception the process leaves at once (its heap may be corrupted)"""
+    import json
+    import os
+    import warnings
+    import logging
+
+    warnings.simplefilter('ignore')
+    logging.disable(logging.WARNING)
+    with open(payload['progress'], 'a') as f:
+        for rec in iter_edit_case(payload['case']):
+            f.write(json.dumps(rec) + '\n')
+            f.flush()
+            os.fsync(f.fileno())
+            if 'error' in rec and str(rec.get('error_kind', '')).startswith('Other'):
+                os._exit(0)
+    return 'done'
+
+
+def run_edit_case_isolated(case):
+    import json
+    import os
+    import tempfile
+
+    fd, path = tempfile.mkstemp(prefix='vbg_c09_edit_', suffix='.jsonl')
+    os.close(fd)
+    try:
+        out = core.run_isolated('props.c09', 'edit_child', {'case': case, 'progress': path}, timeout=300)
+        recs = [json.loads(l) for l in open(path).read().splitlines() if l.strip()]
+        return recs, out
+    finally:
+        try:
+            os.unlink(path)
+        except OSError:
+            pass
+
+
+def expected_edit_values(case, cur, b=None):
+    """per individual (ascending id): the product over exactly the rows that carry its id in the current table
+    (Monte-Carlo: mean over r of that product, the draws being those of (position of the individual, r))"""
+    b = case['b'] if b is None else b
+    ids = sorted({float(r[0]) for r in cur})
+    vals = []
+    for ind, a in enumerate(ids):
+        mine = [r for r in cur if float(r[0]) == a]
+        if case['formula'] == 'traj':
+            vals.append(math.prod(r[1] * math.exp(b * r[2]) for r in mine))
+        else:
+            acc = []
+            for r_ in range(case['R']):
+                x0, x1 = draw_value(ind, r_, 0), draw_value(ind, r_, 1)
+                acc.append(math.prod(r[1] * math.exp(b * r[2] * x0) * ((1 + case['q'] * x1) if case['K'] >= 2 else 1.0) for r in mine))
+            vals.append(math.fsum(acc) / case['R'])
+    return ids, vals
+
+
+def check_edit_step(res, case, cur, k, rec, desc, where):
+    """oracle of one evaluation: values and map are those of the table as it is now"""
+    ids, vals = expected_edit_values(case, cur)
+    # the map left behind describes the current table
+    real = {'sorted_rows': rec['sorted_rows'], 'data_index': rec['data_index'], 'map': rec['map'], 'sample_size': rec['sample_size'], 'n_obs': rec['n_obs']}
+    n_before = len(res.violations)
+    oracle_map({'rows': [r[:3] for r in cur]}, real, res, desc, flat=False, where=where)
+    if sorted(rec['keys']) != sorted(float(r[3]) for r in cur):
+        res.violate('after the evaluation the table of the database holds exactly the rows it was given', desc, sorted(rec['keys']), sorted(float(r[3]) for r in cur), where=where)
+    if [m[0] for m in rec['map']] != ids:
+        res.violate('the map lists the individuals of the current table (ascending id)', desc, [m[0] for m in rec['map']], ids, where=where)
+    if len(res.violations) > n_before:
+        return
+    outer = math.log if rec['entry'] == 'biogeme' else (lambda v: v)
+    want = [outer(v) for v in vals]
+    if 'values' in rec:
+        if len(rec['values']) != len(want) or not all(core.close(a, b, rel=1e-11, abs_=1e-13) for a, b in zip(rec['values'], want)):
+            res.violate(
+                f'evaluation {k} ({rec["entry"]}): one value per individual of the current table = product over exactly the rows that carry its id'
+                + (' (mean over the draws of the individual)' if case['formula'] == 'mc' else ''), desc, rec['values'], {'ids': ids, 'values': want}, where=where)
+            return
+    if 'sum' in rec and not core.close(rec['sum'], math.fsum(vals), rel=1e-11, abs_=1e-13):
+        res.violate(f'evaluation {k} (aggregated): sum over the individuals of the current table', desc, rec['sum'], math.fsum(vals), where=where)
+        return
+    if 'sim_ids' in rec and rec['sim_ids'] != ids:
+        res.violate(f'evaluation {k}: simulate reports one line per individual of the current table', desc, rec['sim_ids'], ids, where=where)
+    if 'L' in rec:
+        if not core.close(rec['L'], math.fsum(want), rel=1e-11, abs_=1e-11):
+            res.violate(f'evaluation {k}: log likelihood = sum over the individuals of the current table', desc, rec['L'], math.fsum(want), where=where)
+        elif not core.close(rec['Ls'], rec['L'] / len(ids), rel=1e-15):
+            res.violate(f'evaluation {k}: scaled log likelihood = log likelihood / number of individuals of the current table', desc, rec['Ls'], rec['L'] / len(ids), where=where)
+    if 'gradients' in rec and case['formula'] == 'traj':
+        # d/db prod_t P exp(b X) = value * sum of X over the rows of the individual
+        gw = [v * math.fsum(r[2] for r in cur if float(r[0]) == a) for a, v in zip(ids, vals)]
+        got = [g[0] if len(g) == 1 else None for g in rec['gradients']]
+        if len(got) != len(gw) or not all(g is not None and core.close(g, w, rel=1e-9, abs_=1e-11) for g, w in zip(got, gw)):
+            res.violate(f'evaluation {k}: derivative of the value of each individual (product over its rows)', desc, rec['gradients'], gw, where=where)
+    if case['formula'] == 'mc':
+        bad = [c for c in rec['gen_calls'] if c[1] != len(ids) or c[2] != case['R']]
+        if bad or not rec['gen_calls'] or rec.get('draws_shape') != [len(ids), case['R'], case['K']]:
+            res.violate(
+                f'evaluation {k}: the draw table is dimensioned by the individuals of the current table (individuals, draws, variables)', desc,
+                {'generator_calls': rec['gen_calls'], 'shape': rec.get('draws_shape')}, [len(ids), case['R'], case['K']], where=where)
+
+
+def check_edit_case(ctx, res, case):
+    desc0 = dict(case)
+    where = WHERE_EDIT
+    iso_f.note(desc0, where)
+    died = None
+    if case.get('isolated'):
+        recs, out = run_edit_case_isolated(case)
+        n_steps = 1 + len(case['steps'])
+        if len(recs) < n_steps and not (recs and 'error' in recs[-1]):
+            # the process died inside evaluation number len(recs)
+            died = {'entry': ([case['entry0']] + [st['entry'] for st in case['steps']])[len(recs)], 'error': 'the process dies: ' + str(out.get('__error__') if isinstance(out, dict) else out)[:100],
+                    'error_kind': 'Other:died'}
+            recs = recs + [died]
+    else:
+        recs = iter_edit_case(case)
+    res.count({'edit': desc0}, nontrivial=True)
+    res.tally('edit-sequence' + (':isolated' if case.get('isolated') else ''))
+    cur = [list(r) for r in case['first']]
+    steps = [{'edits': [], 'entry': case['entry0']}] + case['steps']
+    tables = []
+    flags = []  # per evaluation: (where, description of the case with the evaluation number)
+    seen = []
+    it = iter(recs)
+    for k, step in enumerate(steps):
+        try:
+            rec = next(it)
+        except StopIteration:
+            break
+        except Exception as e:  # noqa: BLE001
+            res.violate(f'panel() on a valid panel table raises {type(e).__name__}: {str(e)[:150]}', desc0, core.exc_kind(e), 'values', where=WHERE_EDIT)
+            break
+        seen.append(rec)
+        cur = apply_edits(cur, step['edits'])
+        tables.append([list(r) for r in cur])
+        desc = dict(desc0, evaluation=k)
+        where = WHERE_EDIT
+        ib = rec.get('ids_before')
+        if case.get('isolated') and k == len(steps) - 1:
+            # only this evaluation is the listed finding F-C09-3; everything before it is checked as usual
+            desc['stale_draws'] = True
+            where = WHERE_STALE_DRAWS
+        elif rec['entry'] in EXPR_ENTRIES and ib is not None and any(x > y for x, y in zip(ib, ib[1:])):
+            # listed finding F-C09-4: the engine receives the table as it was before build_panel_map sorted it
+            desc['unsorted_table'] = True
+            where = WHERE_UNSORTED
+        flags.append((where, desc))
+        res.tally(f'edit:{rec["entry"]}' + (':unsorted-table' if desc.get('unsorted_table') else ''))
+        for e in step['edits']:
+            res.tally(f'edit-op:{e["op"]}')
+        if 'error' in rec:
+            if rec['error_kind'].startswith('Other') and not case.get('isolated'):
+                _POISON['hit'] = True
+            res.violate(
+                f'evaluation {k} ({rec["entry"]}) after the table was changed raises {rec["error"]}', desc, rec['error_kind'],
+                'one value per individual of the current table', where=where)
+            break
+        n0 = len(res.violations)
+        check_edit_step(res, case, cur, k, rec, desc, where)
+        if len(res.violations) > n0 and where == WHERE_EDIT:
+            break  # the case is abandoned at its first failure (a wrong map may take the engine outside the table next)
+    if hasattr(it, 'close'):
+        it.close()
+    recs = seen
+    # model: the same history through Panel.DbState.history (trajectory formulas), Panel.panelValuesMC (Monte-Carlo)
+    n_ok = min(len(recs), len(tables)) - (1 if recs and 'error' in recs[-1] else 0)
+    if n_ok <= 0:
+        return
+    allids = sorted({float(r[0]) for t in tables for r in t})
+    rk = {a: i - len(allids) // 2 for i, a in enumerate(allids)}
+    inv = {v: k for k, v in rk.items()}
+    b = case['b']
+    if case['formula'] == 'traj':
+        def tj(t):
+            return {'ids': [rk[float(r[0])] for r in t], 'p': [f2b(r[1] * math.exp(b * r[2])) for r in t]}
+
+        reqs = [{'op': 'history', 'outer': 'id', 'first': tj(tables[0]), 'tables': [tj(t) for t in tables[:n_ok]]}]
+    else:
+        reqs = []
+        for t in tables[:n_ok]:
+            st = sorted(t, key=lambda r: float(r[0]))
+            n_ind = n_individuals(st)
+            reqs.append({
+                'op': 'mc', 'ids': [rk[float(r[0])] for r in st], 'p': [f2b(r[1]) for r in st], 'x': [f2b(r[2]) for r in st], 'b': f2b(b), 'q': f2b(case['q']),
+                'K': case['K'], 'R': case['R'], 'outer': 'id',
+                'draws': [[[f2b(draw_value(i, r, kk)) for kk in range(case['K'])] for r in range(case['R'])] for i in range(n_ind)]})
+
+    def cb(ans):
+        steps_m = ans[0].get('steps') if case['formula'] == 'traj' else [{'values': a.get('values')} for a in ans]
+        if not isinstance(steps_m, list) or len(steps_m) != n_ok:
+            res.diverge('history of evaluations vs Panel.DbState.history', desc0, ans[0], 'one answer per evaluation', where=WHERE_EDIT)
+            return
+        for k, (sm, rec) in enumerate(zip(steps_m, recs)):
+            mv = [b2f(v) for v in sm.get('values') or []]
+            where, desc = flags[k]
+            if 'values' in rec:
+                rv = [math.exp(v) for v in rec['values']] if rec['entry'] == 'biogeme' else rec['values']
+                if len(mv) != len(rv) or not all(core.close(x, y, rel=1e-11, abs_=1e-13) for x, y in zip(mv, rv)):
+                    res.diverge(f'evaluation {k} ({rec["entry"]}) vs Panel.{"DbState.history" if case["formula"] == "traj" else "panelValuesMC"}', desc, mv, rv, where=where)
+                    return
+            elif 'sum' in rec and not core.close(math.fsum(mv), rec['sum'], rel=1e-11, abs_=1e-13):
+                res.diverge(f'evaluation {k} (aggregated) vs the sum of Panel.DbState.history', desc, math.fsum(mv), rec['sum'], where=where)
+                return
+            if 'map' in sm:
+                mm = [[float(inv[e[0]]), e[1], e[2]] for e in sm['map']]
+                if mm != rec['map']:
+                    res.diverge(f'individualMap after evaluation {k} vs the map of Panel.DbState.history', desc, mm, rec['map'], where=where)
+                    return
+
+    ctx.batch.add_many(reqs, cb)
 
 
 # ----------------------------------------------------------------------------- placement rule
@@ -582,8 +1117,41 @@ def gen_tree(rng, depth):
     return {'k': 'traj', 'e': gen_tree(rng, depth - 1)}
 
 
+def gen_ptree(rng, depth, clean, in_mc=False, in_traj=False):
+    """formulas with Monte-Carlo integrals and draws.  clean=True: no variable outside a trajectory operator and no
+    draw outside an integral, so that the place of the integral relative to the trajectory is what decides"""
+    if depth == 0 or rng.random() < 0.2:
+        leaves = [{'k': 'beta', 'n': 'b'}, {'k': 'num', 'v': rng.randint(1, 3)}]
+        if in_traj or not clean:
+            leaves += [{'k': 'var', 'n': 'P'}, {'k': 'var', 'n': 'X'}] * 2
+        if in_mc or (not clean and rng.random() < 0.2):
+            leaves += [{'k': 'draws', 'n': rng.choice(['xi0', 'xi1'])}] * 3
+        return rng.choice(leaves)
+    kinds = ['un', 'bin', 'bin', 'bin']
+    if not in_traj or rng.random() < 0.1:
+        kinds += ['traj', 'traj']
+    if not in_mc or rng.random() < 0.1:
+        kinds += ['mc', 'mc']
+    k = rng.choice(kinds)
+    if k == 'un':
+        return {'k': 'un', 'op': rng.choice(['exp', 'neg']), 'e': gen_ptree(rng, depth - 1, clean, in_mc, in_traj)}
+    if k == 'bin':
+        return {'k': 'bin', 'op': rng.choice(['+', '*']), 'l': gen_ptree(rng, depth - 1, clean, in_mc, in_traj), 'r': gen_ptree(rng, depth - 1, clean, in_mc, in_traj)}
+    if k == 'traj':
+        return {'k': 'traj', 'e': gen_ptree(rng, depth - 1, clean, in_mc, True)}
+    e = gen_ptree(rng, depth - 1, clean, True, in_traj)
+    if clean and not contains(e, 'draws'):
+        e = {'k': 'bin', 'op': '*', 'l': e, 'r': {'k': 'un', 'op': 'exp', 'e': {'k': 'draws', 'n': 'xi0'}}}
+    return {'k': 'mc', 'e': e}
+
+
 def build_tree(t):
-    from biogeme.expressions import Beta, Variable, Numeric, exp, PanelLikelihoodTrajectory
+    from biogeme.expressions import Beta, Variable, Numeric, exp, PanelLikelihoodTrajectory, MonteCarlo, bioDraws
+
+    if t['k'] == 'mc':
+        return MonteCarlo(build_tree(t['e']))
+    if t['k'] == 'draws':
+        return bioDraws(t['n'], 'UNIFORM')
 
     k = t['k']
     if k == 'var':
@@ -608,9 +1176,9 @@ def outside_vars(t, inside=False):
     k = t['k']
     if k == 'var':
         return [] if inside else [t['n']]
-    if k in ('beta', 'num'):
+    if k in ('beta', 'num', 'draws'):
         return []
-    if k == 'un':
+    if k in ('un', 'mc'):
         return outside_vars(t['e'], inside)
     if k == 'bin':
         return outside_vars(t['l'], inside) + outside_vars(t['r'], inside)
@@ -623,6 +1191,7 @@ AUDIT_TABLE = {'rows': [[3, 0.5, 1.0], [3, 0.25, 0.5], [-1, 0.75, 0.0]], 'index'
 
 
 def construct(tree, as_dict):
+    """BIOGEME(database, formula) on a panel table + what the formula's own audit functions report"""
     import biogeme.biogeme as bio
     import biogeme.database as db
     from biogeme.exceptions import BiogemeError
@@ -631,37 +1200,116 @@ def construct(tree, as_dict):
         d = db.Database('t', make_df(AUDIT_TABLE))
         d.panel('ID')
         e = build_tree(tree)
+        info = {'outside': sorted(e.check_panel_trajectory()), 'draws_outside': sorted(e.check_draws())}
         try:
-            bio.BIOGEME(d, {'log_like': e} if as_dict else e)
-            return 'accepted', sorted(e.check_panel_trajectory())
-        except BiogemeError as ex:
-            return 'BiogemeError', sorted(e.check_panel_trajectory())
+            info['audit_errors'] = len(e.audit(d)[0])
         except Exception as ex:  # noqa: BLE001
-            return core.exc_kind(ex), sorted(e.check_panel_trajectory())
+            info['audit_errors'] = core.exc_kind(ex)
+        try:
+            bio.BIOGEME(d, {'log_like': e} if as_dict else e, number_of_draws=2)
+            return 'accepted', info
+        except BiogemeError:
+            return 'BiogemeError', info
+        except Exception as ex:  # noqa: BLE001
+            return core.exc_kind(ex), info
+
+
+def mc_without_traj(t):
+    """oracle: Monte-Carlo integrals that do not enclose a trajectory operator (row-wise integrals when they are
+    below one, integrals of something that is not the individual's product otherwise)"""
+    k = t['k']
+    if k in ('var', 'beta', 'num', 'draws'):
+        return []
+    if k == 'un':
+        return mc_without_traj(t['e'])
+    if k == 'bin':
+        return mc_without_traj(t['l']) + mc_without_traj(t['r'])
+    if k == 'traj':
+        return mc_without_traj(t['e'])
+    if k == 'mc':
+        return ([] if contains(t['e'], 'traj') else [t]) + mc_without_traj(t['e'])
+    raise ValueError(k)
+
+
+def contains(t, kind):
+    if t['k'] == kind:
+        return True
+    return any(contains(t[c], kind) for c in ('e', 'l', 'r') if c in t)
+
+
+WHERE_MC_RULE = 'BIOGEME.__init__ on panel data: MonteCarlo that does not enclose the PanelLikelihoodTrajectory'
+WHERE_EVAL_RULE = 'Expression.get_value_c on a panel database: placement rules of PanelLikelihoodTrajectory / MonteCarlo'
 
 
 def check_audit(ctx, res, tree, dict_path=False):
     desc = {'tree': tree, 'dict_path': dict_path}
     iso_f.note(desc, 'BIOGEME.__init__ on panel data')
-    verdict, reported = construct(tree, dict_path)
+    verdict, info = construct(tree, dict_path)
+    reported = info['outside']
     exp_out = sorted(set(outside_vars(tree)))
-    res.count({'audit': desc}, nontrivial=bool(exp_out))
-    res.tally('audit:' + ('dict' if dict_path else 'single') + (':outside' if exp_out else ':clean'))
+    bad_mc = mc_without_traj(tree)
+    res.count({'audit': desc}, nontrivial=bool(exp_out) or bool(bad_mc))
+    res.tally('audit:' + ('dict' if dict_path else 'single') + (':outside' if exp_out else ':clean') + (':mc-without-trajectory' if bad_mc else (':mc' if contains(tree, 'mc') else '')))
     if reported != exp_out:
         res.violate('check_panel_trajectory reports the variables outside every trajectory operator', desc, reported, exp_out, where='Expression.check_panel_trajectory')
     if exp_out and verdict != 'BiogemeError':
         res.violate(
             'on panel data a formula with a variable outside PanelLikelihoodTrajectory is refused with the library error', desc, verdict, 'BiogemeError',
             where=WHERE_DICT if dict_path else 'BIOGEME.__init__ on panel data: variables outside PanelLikelihoodTrajectory')
-    if not exp_out and verdict == 'BiogemeError':
+    # (a formula without any variable and without trajectory has no rows to share a draw between: correspondence only)
+    uses_rows = contains(tree, 'traj') or contains(tree, 'var')
+    if bad_mc and uses_rows and verdict != 'BiogemeError' and not (dict_path and exp_out):
+        res.violate(
+            'on panel data a Monte-Carlo integral must enclose the trajectory operator (the integral is taken over the product of the rows of the individual, '
+            'one draw shared by all its rows): a formula with a MonteCarlo that contains no PanelLikelihoodTrajectory is refused with the library error',
+            desc, verdict, {'verdict': 'BiogemeError', 'integrals without trajectory': bad_mc[:2]}, where=WHERE_MC_RULE)
+    if not exp_out and not bad_mc and verdict == 'BiogemeError':
         # other rules may refuse the formula (they are C12's subject); recorded, not a failure of this property
         res.tally('audit:refused-for-another-reason')
+    if verdict == 'accepted':
+        res.tally('audit:accepted')
 
     def cb(ans):
-        if sorted(set(ans[0].get('outside', []))) != reported:
-            res.diverge('check_panel_trajectory vs Panel.checkPanelTrajectory', desc, ans[0].get('outside'), reported)
+        a = ans[0]
+        if sorted(set(a.get('outside', []))) != reported:
+            res.diverge('check_panel_trajectory vs Panel.checkPanelTrajectory', desc, a.get('outside'), reported)
+        if sorted(set(a.get('draws_outside', []))) != info['draws_outside']:
+            res.diverge('check_draws vs Panel.checkDraws', desc, a.get('draws_outside'), info['draws_outside'])
+        if a.get('audit_errors') != info['audit_errors']:
+            res.diverge('number of errors listed by Expression.audit(panel database) vs Panel.auditErrors', desc, a.get('audit_errors'), info['audit_errors'], where=WHERE_MC_RULE)
+        if not dict_path and a.get('accepts') != (verdict == 'accepted'):
+            res.diverge('BIOGEME(database, formula) builds the object vs Panel.initAccepts', desc, a.get('accepts'), verdict, where=WHERE_MC_RULE)
 
     ctx.batch.add_many([{'op': 'audit', 'e': tree}], cb)
+
+
+def check_audit_eval(ctx, res, tree):
+    """the same rules at the expression entry point (called only for formulas that must be refused: nothing reaches the engine)"""
+    import biogeme.database as db
+
+    desc = {'tree': tree, 'entry': 'get_value_c'}
+    iso_f.note(desc, WHERE_EVAL_RULE)
+    bad_mc = mc_without_traj(tree) if (contains(tree, 'traj') or contains(tree, 'var')) else []
+    exp_out = sorted(set(outside_vars(tree))) if contains(tree, 'traj') else []
+    if not bad_mc and not exp_out:
+        return
+    res.count({'audit-eval': desc}, nontrivial=True)
+    res.tally('audit:get_value_c' + (':mc-without-trajectory' if bad_mc else ':outside'))
+    with core.scratch(TOML):
+        d = db.Database('t', make_df(AUDIT_TABLE))
+        d.panel('ID')
+        e = build_tree(tree)
+        try:
+            v = e.get_value_c(database=d, number_of_draws=2, prepare_ids=True)
+            verdict = 'value ' + str([float(x) for x in np.asarray(v).ravel()][:4])
+        except Exception as ex:  # noqa: BLE001
+            verdict = core.exc_kind(ex)
+            if verdict.startswith('Other'):
+                _POISON['hit'] = True
+    if verdict != 'BiogemeError':
+        res.violate(
+            'on panel data get_value_c refuses (library error) a formula with a trajectory operator and '
+            + ('a MonteCarlo that does not enclose it' if bad_mc else 'a variable outside it'), desc, verdict, 'BiogemeError', where=WHERE_EVAL_RULE)
 
 
 # ----------------------------------------------------------------------------- the check
@@ -677,6 +1325,51 @@ CORPUS_TABLES = [
 ]
 
 
+def _v(n):
+    return {'k': 'var', 'n': n}
+
+
+def _mul(l, r):
+    return {'k': 'bin', 'op': '*', 'l': l, 'r': r}
+
+
+_EXPD = {'k': 'un', 'op': 'exp', 'e': _mul({'k': 'beta', 'n': 'b'}, {'k': 'draws', 'n': 'xi0'})}
+CORPUS_MC_TREES = [
+    # the integral around the trajectory (accepted)
+    {'k': 'mc', 'e': {'k': 'traj', 'e': _mul(_v('P'), _EXPD)}},
+    # the integral inside the trajectory, row by row: integrand with a variable / without any variable
+    {'k': 'traj', 'e': {'k': 'mc', 'e': _mul(_v('P'), _EXPD)}},
+    {'k': 'traj', 'e': _mul(_v('P'), {'k': 'mc', 'e': _EXPD})},
+    # the integral next to the trajectory
+    _mul({'k': 'traj', 'e': _v('P')}, {'k': 'mc', 'e': _EXPD}),
+    # no trajectory at all
+    {'k': 'mc', 'e': _mul(_v('P'), _EXPD)},
+    {'k': 'mc', 'e': _EXPD},
+]
+
+
+def _edit_corpus():
+    base = [[7, 0.5, 1.0, 0.0], [7, 0.25, 2.0, 1.0], [7, 0.5, -1.0, 2.0], [3, 0.75, 0.5, 3.0], [12, 0.5, 1.5, 4.0], [12, 0.125, -0.5, 5.0]]
+    common = {'first': base, 'index': [0, 1, 2, 3, 4, 5], 'allint': True, 'b': 0.25, 'q': 0.5, 'K': 2, 'R': 3, 'isolated': False}
+    return [
+        # a new wave of rows for the last individual (the table stays sorted), then rows dropped at the end of the table
+        dict(common, formula='traj', entry0='expr', steps=[
+            {'edits': [{'op': 'append', 'rows': [[12, 0.5, 1.0, 6.0], [12, 0.75, 0.5, 7.0]]}], 'entry': 'expr'},
+            {'edits': [{'op': 'drop', 'keys': [5.0, 6.0, 7.0]}], 'entry': 'expr_deriv'},
+            {'edits': [{'op': 'append', 'rows': [[5, 0.5, 1.0, 8.0], [7, 0.5, 0.25, 9.0]]}, {'op': 'relabel', 'key': 0.0, 'id': 3}], 'entry': 'expr_sum'}]),
+        # the same with shared draws; the number of individuals does not change before the expression entry point is used
+        dict(common, formula='mc', entry0='expr', steps=[
+            {'edits': [{'op': 'append', 'rows': [[12, 0.5, 1.0, 6.0], [3, 0.75, 0.5, 7.0]]}], 'entry': 'expr'},
+            {'edits': [{'op': 'append', 'rows': [[5, 0.5, 1.0, 8.0]]}, {'op': 'order', 'keys': [8.0, 7.0, 6.0, 5.0, 4.0, 3.0, 2.0, 1.0, 0.0]}], 'entry': 'biogeme'},
+            {'edits': [{'op': 'remove', 'x_gt': 1.25}], 'entry': 'expr_deriv'}]),
+        # known finding F-C09-3: a new individual, then the expression entry point with Monte-Carlo
+        dict(common, formula='mc', entry0='expr', isolated=True, steps=[{'edits': [{'op': 'append', 'rows': [[5, 0.5, 1.0, 6.0]]}], 'entry': 'expr'}]),
+    ]
+
+
+CORPUS_EDITS = _edit_corpus()
+
+
 def check_impl(ctx) -> Result:
     res = Result(rule=RULE, tolerance='map, acceptance, sample size, generator calls: exact; values: rel 1e-11 (oracle), rel 1e-12 (model vs code)')
     rng = ctx.rng
@@ -689,12 +1382,27 @@ def check_impl(ctx) -> Result:
     # known finding F-C09-1 (dict of formulas): concrete input first
     check_audit(ctx, res, {'k': 'bin', 'op': '+', 'l': {'k': 'traj', 'e': {'k': 'var', 'n': 'P'}}, 'r': {'k': 'var', 'n': 'X'}}, dict_path=True)
     check_audit(ctx, res, {'k': 'bin', 'op': '+', 'l': {'k': 'traj', 'e': {'k': 'var', 'n': 'P'}}, 'r': {'k': 'var', 'n': 'X'}}, dict_path=False)
-    known = (WHERE_DICT, WHERE_BOOT_L)
+    known = (WHERE_DICT, WHERE_BOOT_L, WHERE_STALE_DRAWS, WHERE_UNSORTED)
     # one object used for several calls in a row, with an estimation (bootstrap) in between
     check_sequence(ctx, res, {'table': CORPUS_TABLES[1], 'b0': 0.25, 'np_seed': 2026, 'samples': 3, 'threads': 2})
     for _ in range(ctx.n(8, 150)):
         check_sequence(ctx, res, gen_seq_case(rng))
+    # the table is changed between two evaluations (rows appended / dropped / relabelled / reordered, Database.remove)
+    for c in CORPUS_EDITS:
+        if not [v for v in res.violations if v.get('where') not in known]:
+            check_edit_case(ctx, res, c)
+    n_stale = 0
+    for _ in range(ctx.n(70, 1500)):
+        if _POISON['hit']:
+            break
+        c = gen_edit_case(rng, allow_stale_draws=n_stale < ctx.n(2, 30))
+        n_stale += 1 if c['isolated'] else 0
+        check_edit_case(ctx, res, c)
+        if [v for v in res.violations if v.get('where') not in known]:
+            break  # one concrete failing history is enough: the next ones may take the engine outside the table
     for _ in range(ctx.n(120, 2500)):
+        if _POISON['hit']:
+            break
         case = gen_case(rng)
         check_case(ctx, res, case, rng)
         if len([v for v in res.violations if v.get('where') not in known]) > 5:
@@ -703,6 +1411,23 @@ def check_impl(ctx) -> Result:
         check_audit(ctx, res, gen_tree(rng, rng.randint(1, 4)), dict_path=False)
     for _ in range(ctx.n(5, 60)):
         check_audit(ctx, res, gen_tree(rng, rng.randint(1, 4)), dict_path=True)
+    # formulas with Monte-Carlo integrals: around the trajectory, inside it (row by row), next to it
+    mc_trees = list(CORPUS_MC_TREES)
+    for t in CORPUS_MC_TREES:
+        check_audit(ctx, res, t, dict_path=False)
+        check_audit(ctx, res, t, dict_path=True)
+    for i in range(ctx.n(150, 3000)):
+        t = gen_ptree(rng, rng.randint(2, 5), clean=rng.random() < 0.7)
+        check_audit(ctx, res, t, dict_path=(i % 6 == 5))
+        mc_trees.append(t)
+    # last (a formula that is wrongly accepted reaches the engine): the same rules at the expression entry point
+    n_eval = 0
+    for t in mc_trees:
+        if _POISON['hit'] or n_eval >= ctx.n(60, 600) or [v for v in res.violations if v.get('where') == WHERE_EVAL_RULE]:
+            break
+        if mc_without_traj(t) or (contains(t, 'traj') and outside_vars(t)):
+            check_audit_eval(ctx, res, t)
+            n_eval += 1
     ctx.batch.flush()
     return res
 
@@ -721,11 +1446,18 @@ class _Ctx2:
 def search(ctx, res, broken):
     rng = core.rng_for('C09-search', ctx.seed)
     c2 = _Ctx2(rng)
-    for _ in range(300):
+    known = (WHERE_DICT, WHERE_BOOT_L, WHERE_STALE_DRAWS, WHERE_UNSORTED)
+    for i in range(300):
         r2 = Result()
         check_case(c2, r2, gen_case(rng), rng)
-        if r2.violations:
-            res.violations.extend(r2.violations[:1])
+        check_edit_case(c2, r2, gen_edit_case(rng, allow_stale_draws=False))
+        t = gen_ptree(rng, rng.randint(2, 5), clean=rng.random() < 0.7)
+        check_audit(c2, r2, t, dict_path=False)
+        if i < 40:
+            check_sequence(c2, r2, gen_seq_case(rng))
+        found = [v for v in r2.violations if v.get('where') not in known]
+        if found:
+            res.violations.extend(found[:1])
             return
 
 
@@ -738,6 +1470,12 @@ def replay_impl(ctx, obj):
         check_sequence(c2, r, {k: v for k, v in case.items() if k != 'step'})
         if case.get('step') and case['step'] != 'sequence':
             r.violations = [v for v in r.violations if v['case'].get('step') == case['step']]
+    elif 'steps' in case and 'first' in case:
+        check_edit_case(c2, r, {k: v for k, v in case.items() if k not in ('evaluation', 'stale_draws', 'unsorted_table')})
+        if 'evaluation' in case:
+            r.violations = [v for v in r.violations if v['case'].get('evaluation') == case['evaluation']]
+    elif 'tree' in case and case.get('entry') == 'get_value_c':
+        check_audit_eval(c2, r, case['tree'])
     elif 'tree' in case:
         check_audit(c2, r, case['tree'], dict_path=bool(case.get('dict_path')))
     elif 'formula' in case and 'table' in case:
